@@ -9,7 +9,7 @@ B  the TLC state graph (every call and every failure point out of every state wi
    bound) is covered by paths that are replayed on a real KeychainSqlite3 + TpmFile in a fresh scratch
    directory; after every step the projection through the public Mapping API is compared.  Quick: all
    transitions out of the states within 1 call of the empty store; thorough: all out of the states within
-   2 calls, and those of the next layer as a seeded sample within a step budget.
+   2 calls (paths of up to 3 calls).
 C  random histories (4 identities, up to 6 keys each, ~40 calls, failures, close / reopen) recorded
    from the real code and judged by TLC (KeychainTrace), invariants evaluated on every state.
 
@@ -640,7 +640,7 @@ def replay_many(all_steps, procs):
 
 def run(ctx):
     ctx.rule = ('A: TLC exhaustive over all call / failure-point / close-reopen histories up to the depth bound '
-                '(A0 no failure: depth 6 quick / 8 thorough; A1 any number of failures: depth 4 / 5; A2 at most one failure: depth 7, thorough only); B: every transition of the TLC graph '
+                '(A0 no failure: depth 6 quick / 8 thorough; A1 any number of failures: depth 4 / 5; A2 at most one failure: depth 6, thorough only); B: every transition of the TLC graph '
                 '(level bound) replayed on a real KeychainSqlite3+TpmFile; C: random histories over 4 identities judged '
                 'by TLC. non-trivial = distinct path / history containing an injected failure, a delete or a close')
     ctx.assumptions = ['PyCryptodome primitives and the sqlite3 module are trusted',
@@ -655,7 +655,7 @@ def run(ctx):
     workers = ctx.pick(4, int(os.environ.get('VERIF_WORKERS', '12')))
 
     if 'A' in ctx.stages:
-        d0, d1, d2 = ctx.pick((6, 4, 5), (8, 5, 7))
+        d0, d1, d2 = ctx.pick((6, 4, 5), (8, 5, 6))
         runs = [('A0 no fault', d0, 0), ('A1 any number of faults', d1, 99)] + ([] if ctx.quick else [('A2 at most one fault', d2, 1)])
         for name, depth, mf in runs:
             cfgp = os.path.join(tlc.BUILD, 'Keychain_%s_%d.cfg' % (ctx.tier, mf))
@@ -686,7 +686,7 @@ def run(ctx):
             raise tlc.MachineryError('vacuity witness not reachable: %s' % [l for l in r.out.splitlines() if 'UNREACHED' in l])
 
     if 'B' in ctx.stages:
-        lvl = ctx.pick(4, 6)
+        lvl = ctx.pick(4, 5)
         gcfg = os.path.join(tlc.BUILD, 'Keychain_g_%s.cfg' % ctx.tier)
         tlc.write_cfg(gcfg, constants=consts('{"A", "B"}', maxlevel=lvl, devs=flags), constraints=['Bound'], raw='ALIAS DumpAlias')
         g = graph.dump('Keychain', gcfg, workers=1, tag='c15g')
@@ -720,7 +720,7 @@ def run(ctx):
             # cover paths of the layer after that, within a step budget
             npaths = len(paths)
             paths = select_paths(ctx, g, paths, 2, 100000)
-            ctx.note('B (thorough): %d of %d paths replayed: every transition out of states within 2 calls + seeded sample of those out of states within 3 calls' % (len(paths), npaths))
+            ctx.note('B (thorough): %d of %d paths replayed (every transition out of states within 2 calls)' % (len(paths), npaths))
         all_steps = [make_steps(g, pe, init) for init, pe in paths]
         results = replay_many(all_steps, ctx.pick(6, 12))
         unfinished = 0
